@@ -1,46 +1,50 @@
 (* C06 — no datagram can crash, hang or exhaust a running participant.  PARTIAL, see below.
 
-   Statements over Wire/RecvModel.v composed with the decoder model Wire/WireModel.v (C07/C08):
+   Statements over Wire/RecvModel.v composed with the decoder model Wire/WireModel.v (C07/C08),
+   both describing the code AFTER the repairs recorded in known_findings.json (C06-*: a89778b
+   8329c8d 6f37365 df6af72 1f8d93c 9291c1e 84c5233; C07: 221c5f8 0cb9fa7):
      handle_datagram st bytes   DcpsDomainParticipant::handle_data: RtpsMessageRead::try_from, the
                                 MessageReceiver (INFO_TS / INFO_SRC / INFO_DST / INFO_REPLY) and, per
                                 submessage, every stateful reader (on_data_submessage,
                                 on_data_frag_submessage + reconstruct_data_from_frag, GAP, HEARTBEAT +
                                 the ACKNACK / NACK_FRAG reply, HEARTBEAT_FRAG) and every stateful
                                 writer (ACKNACK + resending of requested changes, NACK_FRAG) of the
-                                participant, user-defined and builtin alike; fields are arbitrary
-                                integers, debug-profile arithmetic (overflow = Panic)
+                                participant, user-defined and builtin alike; debug-profile arithmetic
+                                (overflow = Panic)
      pstate                     the RTPS state these handlers read and write: per reader its writer
                                 proxies (sequence number state, counts, fragment buffer), per writer
                                 its history and reader proxies
      InvC C st                  every proxy's sequence numbers are such that `+ 1` / `- 1` are in
                                 range, every buffered fragment is plausible, at most C bytes of
                                 fragments are buffered per proxy, writers have sent all their changes
-     datagram_steps st bytes    iterations of the two loops whose bound is computed from wire values
-                                (GAP range; reassembly loop x buffer scan); every other handler loop
-                                runs over a decoded set (<= 256 members) or a container of the state
-     C06_known_dgram bytes      the datagram decodes to a submessage of one of the recorded classes
-                                (known_sub: k_inforeply, k_gap_range, k_set_max, k_acknack_min,
-                                k_hb_min, k_sn_max, k_frag_count; k_fset cannot come out of the decoder)
+     bytes_ok bytes             every element is an octet (0..255)
+     datagram_steps st bytes    iterations of the one loop whose bound is computed from wire values
+                                (reassembly loop x buffer scan); every other handler loop runs over a
+                                decoded set (<= 256 members) or a container of the state
    NOT covered by these theorems (differential run only, see props/C06.py): what the worker does
-   afterwards with an ACCEPTED sample (XCDR / discovery-data deserialization, type lookup and type
+   afterwards with an ACCEPTED sample (XCDR / discovery-data deserialization incl. the repaired
+   with_capacity(wire length) f05259a and EMHEADER arithmetic 166bae1, type lookup and type
    assignability, QoS matching, partition regex, listeners), the transport / socket layer, the
-   allocator; HEARTBEAT-only messages of writers.  Release builds wrap where the debug build panics. *)
+   allocator; HEARTBEAT-only messages of writers.  Release builds wrap where a debug build would
+   panic.  Identity spoofing through discovery DATA (announcing another participant's GUID with
+   other locators) is a DDS-Security matter and outside this property. *)
 From DustDDS Require Import Base.Machine Base.Bytes Wire.WireModel Wire.RecvModel Wire.RecvProofs
-  Wire.RecvMemProofs Wire.RecvIsoProofs Wire.RecvWitness Disc.DiscModel Disc.DiscTotProofs.
+  Wire.RecvRangeProofs Wire.RecvMemProofs Wire.RecvIsoProofs Wire.RecvWitness Disc.DiscModel Disc.DiscTotProofs.
 Open Scope Z_scope.
 
-(* never a panic, for EVERY state satisfying the invariant and EVERY byte string outside the
-   classes; the invariant is kept (so the next datagram is covered again) and at most 26 bytes per
-   datagram byte are added to any fragment buffer *)
+(* handle_datagram_total + handle_preserves_inv: never a panic, for EVERY state satisfying the
+   invariant and EVERY byte string; the invariant is kept (so the next datagram is covered again)
+   and at most 26 bytes per datagram byte are added to any fragment buffer (retained memory
+   proportional to the datagram) *)
 Theorem C06_handle_datagram_total : forall C st bytes,
-  InvC C st -> C + 26 * len bytes <= FRAG_CAP -> C06_known_dgram bytes = false ->
+  InvC C st -> C + 26 * len bytes <= FRAG_CAP -> bytes_ok bytes ->
   exists st' o, handle_datagram st bytes = Ok (st', o) /\ InvC (C + 26 * len bytes) st' /\
                 length (ps_readers st') = length (ps_readers st).
 Proof. exact handle_datagram_total. Qed.
 
-(* all sequences of such datagrams (histories): the participant survives all of them *)
+(* all sequences of datagrams (histories): the participant survives all of them *)
 Theorem C06_history_total : forall ds C st,
-  InvC C st -> C + 26 * sumZ (map (@len Z) ds) <= FRAG_CAP -> Forall (fun d => C06_known_dgram d = false) ds ->
+  InvC C st -> C + 26 * sumZ (map (@len Z) ds) <= FRAG_CAP -> Forall bytes_ok ds ->
   exists st', run_datagrams st ds = Ok st' /\ InvC (C + 26 * sumZ (map (@len Z) ds)) st'.
 Proof. exact run_datagrams_total. Qed.
 
@@ -51,89 +55,51 @@ Theorem C06_other_peers_untouched : forall st bytes st' o,
   handle_datagram st bytes = Ok (st', o) -> others (claimed bytes) st' = others (claimed bytes) st.
 Proof. exact handle_datagram_isolated. Qed.
 
-(* sender-chosen work, PARTIAL with respect to "linear": outside the classes it is bounded by
-   #submessages x #readers x max(65536, (buffered fragment bytes + 1)^2) — the reassembly loop of
-   reconstruct_data_from_frag is quadratic in the fragments buffered for one sample even for
-   honest fragments.  (The decoder's own work is linear: C07_message_cost_linear.) *)
+(* handle_datagram_cost, PARTIAL with respect to "linear": the sender-chosen work is bounded by
+   #submessages x #readers x (buffered fragment bytes + 1)^2 for every byte string — the
+   reassembly loop of reconstruct_data_from_frag is quadratic in the fragments buffered for one
+   sample even for honest fragments (C06_reassembly_quadratic).  The decoder's own work and
+   allocation are linear: C07_message_cost_linear, C07_decoded_memory_linear. *)
 Theorem C06_datagram_steps_bounded_partial : forall C st bytes, 0 <= C ->
-  InvC C st -> C + 26 * len bytes <= FRAG_CAP -> C06_known_dgram bytes = false ->
+  InvC C st -> C + 26 * len bytes <= FRAG_CAP -> bytes_ok bytes ->
   0 <= datagram_steps st bytes <= steps_bound (len (subs_of bytes)) (len (ps_readers st)) (C + 26 * len bytes).
 Proof. exact datagram_steps_bounded. Qed.
+
+Theorem C06_reassembly_quadratic :
+  bytes_okb w_honest_frags = true /\ datagram_steps demo_state w_honest_frags = 41 * 40.
+Proof. exact reassembly_quadratic. Qed.
+
+(* the decoder hands the handlers values in their machine ranges, for every byte string *)
+Theorem C06_decoded_in_range : forall bytes, bytes_ok bytes -> Forall sub_range (subs_of bytes).
+Proof. exact decoded_in_range. Qed.
 
 (* first DCPS stage behind the SPDP stateless reader, which accepts DATA from ANY sender: the
    participant-data decoder (C13) returns a value or an error for every payload *)
 Theorem C06_spdp_payload_decoder_total : forall d p, participant_from_bytes d <> Panic p.
 Proof. exact participant_from_bytes_total. Qed.
 
-(* ------------------------------------------- inside the classes the property is false *)
-(* finding C06-inforeply-todo: a 52-byte datagram from an unknown sender, any state *)
-Theorem C06_inforeply_panics : forall st,
-  handle_datagram st w_inforeply = Panic S_MR_INFO_REPLY /\ C06_known_dgram w_inforeply = true /\ len w_inforeply = 52.
-Proof. exact (fun st => conj (inforeply_panics st) inforeply_class). Qed.
-
-(* finding C06-gap-range-loop: 2^62 - 1 loop iterations for 52 bytes *)
-Theorem C06_gap_range_unbounded :
-  datagram_steps demo_state w_gap_range = 2 ^ 62 - 1 /\ len w_gap_range = 52 /\
-  existsb k_gap_range (subs_of w_gap_range) = true /\ existsb known_panic (subs_of w_gap_range) = false.
-Proof. exact gap_range_steps. Qed.
-
-(* finding C06-snset-member-overflow: iterator overflow; member i64::MAX requested; member
-   i64::MAX in a GAP poisons the proxy so that the next ordinary DATA panics *)
-Theorem C06_set_member_overflow :
-  handle_datagram demo_state w_set_iter = Panic (S_SE + 63) /\
-  handle_datagram demo_state w_set_member_max = Panic S_SW_REQGAP /\
-  exists st1 o, handle_datagram demo_state w_gap_member_max = Ok (st1, o) /\
-                C06_known_dgram w_data_5 = false /\ handle_datagram st1 w_data_5 = Panic S_SR_EXPECTED.
-Proof. exact (conj set_iter_panics (conj set_member_max_panics gap_member_max_poisons)). Qed.
-
-(* finding C06-acknack-base-underflow *)
-Theorem C06_acknack_min_panics : handle_datagram demo_state w_acknack_min = Panic S_SW_ACKED.
-Proof. exact acknack_min_panics. Qed.
-
-(* finding C06-heartbeat-first-underflow: at once, or at the next DATA *)
-Theorem C06_heartbeat_min_panics :
-  handle_datagram demo_state w_hb_min = Panic S_WP_FIRST /\
-  exists st1 o, handle_datagram demo_state w_hb_min_final = Ok (st1, o) /\
-                C06_known_dgram w_data_1 = false /\ handle_datagram st1 w_data_1 = Panic S_WP_FIRST.
-Proof. exact (conj hb_min_panics hb_min_poisons). Qed.
-
-(* finding C06-seqnum-max-overflow *)
-Theorem C06_seqnum_max_panics :
-  handle_datagram demo_state w_nackfrag_max = Panic S_SW_NFGAP /\
-  exists st1 o1 st2 o2, handle_datagram demo_state w_hb_first_max = Ok (st1, o1) /\
-    C06_known_dgram w_hb_first_max = false /\
-    handle_datagram st1 w_data_max = Ok (st2, o2) /\
-    C06_known_dgram w_data_3 = false /\ handle_datagram st2 w_data_3 = Panic S_SR_EXPECTED.
-Proof. exact (conj nackfrag_max_panics data_max_poisons). Qed.
-
-(* finding C06-frag-reassembly-cost: 50 one-byte fragments (1870 bytes): 65535 * 50 * 50 scans,
-   above the bound claimed outside the class *)
-Theorem C06_frag_reassembly_superlinear :
-  datagram_steps demo_state w_frag_flood = (65535 * 50 + 1) * 50 /\ len w_frag_flood = 1870 /\
-  existsb k_frag_count (subs_of w_frag_flood) = true /\ existsb known_panic (subs_of w_frag_flood) = false /\
-  steps_bound (len (subs_of w_frag_flood)) 1 (frag_bytes (subs_of w_frag_flood)) < datagram_steps demo_state w_frag_flood.
-Proof. exact frag_flood_steps. Qed.
+(* regression: the fifteen datagrams that panicked or hung the participant before the repairs
+   are handled in one history, without sender-chosen work; INFO_REPLY is ignored in every state *)
+Theorem C06_former_witnesses_handled :
+  forallb bytes_okb former_witnesses = true /\
+  is_ok (run_datagrams demo_state former_witnesses) = true /\
+  datagram_steps demo_state w_gap_range = 0 /\ datagram_steps demo_state w_frag_flood = 0 /\
+  (forall st, handle_datagram st w_inforeply = Ok (st, [])).
+Proof. exact (conj former_witnesses_bytes former_witnesses_handled). Qed.
 
 (* non-vacuity: a state satisfying the invariant and a 276-byte datagram with eight submessages
-   (INFO_TS, HEARTBEAT, GAP, ACKNACK, DATA_FRAG, NACK_FRAG, INFO_SRC, DATA) outside every class:
-   handled, four reply datagrams *)
+   (INFO_TS, HEARTBEAT, GAP, ACKNACK, DATA_FRAG, NACK_FRAG, INFO_SRC, DATA): handled, four reply
+   datagrams *)
 Example C06_nonvacuous :
-  InvC 0 demo_state /\ C06_known_dgram w_clean = false /\ len (subs_of w_clean) = 8 /\
+  InvC 0 demo_state /\ bytes_okb w_clean = true /\ len (subs_of w_clean) = 8 /\
   exists st1 o, handle_datagram demo_state w_clean = Ok (st1, o) /\ len o = 4.
-Proof.
-  split; [exact demo_inv|]. destruct clean_handled as ([_ K] & N & st1 & o & H & L & _).
-  split; [exact K|]. split; [exact N|]. exists st1, o. auto.
-Qed.
+Proof. exact (conj demo_inv clean_handled). Qed.
 
 Print Assumptions C06_handle_datagram_total.
 Print Assumptions C06_history_total.
 Print Assumptions C06_other_peers_untouched.
 Print Assumptions C06_datagram_steps_bounded_partial.
+Print Assumptions C06_reassembly_quadratic.
+Print Assumptions C06_decoded_in_range.
 Print Assumptions C06_spdp_payload_decoder_total.
-Print Assumptions C06_inforeply_panics.
-Print Assumptions C06_gap_range_unbounded.
-Print Assumptions C06_set_member_overflow.
-Print Assumptions C06_acknack_min_panics.
-Print Assumptions C06_heartbeat_min_panics.
-Print Assumptions C06_seqnum_max_panics.
-Print Assumptions C06_frag_reassembly_superlinear.
+Print Assumptions C06_former_witnesses_handled.
